@@ -14,18 +14,17 @@ use std::net::SocketAddr;
 use std::panic::AssertUnwindSafe;
 
 use futures_util::{FutureExt, SinkExt, StreamExt};
-use p2panda_core::{Body, SigningKey, Topic, VerifyingKey};
+use p2panda_core::{Body, Hash, Header, SigningKey, Topic, VerifyingKey};
 use p2panda_discovery::psi_hash::PsiHashMessage;
 use p2panda_net::addrs::{NodeInfo, TransportAddress, UnsignedTransportInfo};
-use p2panda_net::codec::{Codec, CodecError, into_codec_sink, into_codec_stream};
+use p2panda_net::codec::{Codec, into_codec_sink, into_codec_stream};
 use p2panda_sync::protocols::{LogSyncMessage, TopicLogSyncMessage};
-use p2panda_sync::test_utils::create_operation;
 use serde::Serialize;
 use serde::de::DeserializeOwned;
 use tokio::io::AsyncWriteExt;
 use tokio_util::bytes::BytesMut;
 use tokio_util::codec::{Encoder, FramedRead};
-use vh_common::{Args, Report, Rng, Value, catch, hash_of, hex, json};
+use vh_common::{Args, Report, Rng, catch, hash_of, hex, json};
 
 type Ls = LogSyncMessage<usize>;
 type Tls = TopicLogSyncMessage<usize, usize>;
@@ -50,6 +49,24 @@ fn payload(rng: &mut Rng) -> Vec<u8> {
         _ => rng.usize_below(20_000),
     };
     rng.bytes(n)
+}
+
+/// A well-formed, signed header (payload hash present iff the body is non-empty, backlink present
+/// iff seq_num > 0 — the header encoding is positional on exactly these two conditions).
+fn header(rng: &mut Rng, body: &Body, seq_num: u32) -> Header<usize> {
+    let k = key(rng);
+    let mut header = Header::<usize> {
+        version: 1,
+        verifying_key: k.verifying_key(),
+        signature: None,
+        payload_size: body.size(),
+        payload_hash: if body.size() > 0 { Some(body.hash()) } else { None },
+        seq_num,
+        backlink: if seq_num > 0 { Some(Hash::digest(rng.array32())) } else { None },
+        extensions: rng.usize_below(9),
+    };
+    header.sign(&k);
+    header
 }
 
 impl Msg for Vec<u8> {
@@ -81,14 +98,8 @@ fn gen_ls(rng: &mut Rng) -> Ls {
         },
         2 => {
             let body = payload(rng);
-            let k = key(rng);
-            let (_, header_bytes) = create_operation(
-                &k,
-                &Body::new(&body),
-                rng.below(5) as u32,
-                None,
-                rng.usize_below(9),
-            );
+            let seq = rng.below(5) as u32;
+            let header_bytes = header(rng, &Body::new(&body), seq).to_bytes();
             LogSyncMessage::Operation(header_bytes, if rng.chance(0.8) { Some(body) } else { None })
         }
         _ => LogSyncMessage::Done,
@@ -112,9 +123,8 @@ impl Msg for Tls {
             0 | 1 => TopicLogSyncMessage::Sync(gen_ls(rng)),
             2 | 3 => {
                 let body = Body::new(&payload(rng));
-                let k = key(rng);
-                let (header, _) =
-                    create_operation(&k, &body, rng.below(1000) as u32, None, rng.usize_below(9));
+                let seq = rng.below(1000) as u32;
+                let header = header(rng, &body, seq);
                 TopicLogSyncMessage::Live(header, if rng.chance(0.8) { Some(body) } else { None })
             }
             _ => TopicLogSyncMessage::Close,
@@ -512,11 +522,12 @@ fn boundary_case(cx: &mut Ctx, case: u64, rng: &mut Rng) {
 
 fn garbage_case<M: Msg>(cx: &mut Ctx, case: u64, rng: &mut Rng) {
     let mut bytes = match rng.below(5) {
-        0 => rng.bytes(rng.usize_below(64)),
+        0 => { let n = rng.usize_below(64); rng.bytes(n) }
         1 => {
             // huge / odd length prefixes
             let mut b = rng.pick(&[[0xffu8; 4], [0x08, 0, 0, 1], [0x08, 0, 0, 0], [0x7f, 0xff, 0xff, 0xff], [0, 0, 0, 0]]).to_vec();
-            b.extend(rng.bytes(rng.usize_below(40)));
+            let n = rng.usize_below(40);
+            b.extend(rng.bytes(n));
             b
         }
         2 => {
@@ -604,6 +615,5 @@ pub fn run(args: &Args) {
         }
     }
     rep.extra("streams", json!(streams));
-    let _: Option<(CodecError, Value)> = None;
     rep.finish(args);
 }
